@@ -19,6 +19,8 @@ VARIABLES l,        \* index of the next event
 tvars == <<content, l, bad, nbad, ntr>>
 
 MaxBad == 40
+\* deviations are kept per class (operation, failed checks, deviation flags): a flood of one class never hides another
+KeepBad(bd, op, fl, dv) == Cardinality({b \in bd : b[3] = op /\ b[4] = fl}) < 6 /\ Cardinality(bd) < 40 * MaxBad
 ToSet(s) == {s[i] : i \in DOMAIN s}
 Has(e, f) == f \in DOMAIN e
 
@@ -72,7 +74,7 @@ TraceNext ==
          /\ l' = l + 1
          /\ ntr' = IF e.op = "reset" THEN ntr + 1 ELSE ntr
          /\ nbad' = IF f = {} THEN nbad ELSE nbad + 1
-         /\ bad' = IF f = {} \/ Cardinality(bad) >= MaxBad THEN bad
+         /\ bad' = IF f = {} \/ ~KeepBad(bad, e.op, f, {}) THEN bad
                    ELSE bad \cup {<<e.tid, l, e.op, f>>}
 
 TraceSpec == TraceInit /\ [][TraceNext]_tvars
